@@ -537,6 +537,8 @@ pub(crate) struct MergeJoin<Left: Executor, Right: Executor> {
     right_exhausted: bool,
     left_matched: bool,
     right_matched: Vec<bool>,
+    /// Every right row read so far (RIGHT / FULL joins only), parallel to `right_matched`
+    right_rows: Vec<Row>,
     emitting_unmatched_right: bool,
     unmatched_right_idx: usize,
 
@@ -569,6 +571,7 @@ impl<Left: Executor, Right: Executor> MergeJoin<Left, Right> {
             right_exhausted: false,
             left_matched: false,
             right_matched: Vec::new(),
+            right_rows: Vec::new(),
             emitting_unmatched_right: false,
             unmatched_right_idx: 0,
             stats: ExecutionStats::default(),
@@ -581,7 +584,12 @@ impl<Left: Executor, Right: Executor> MergeJoin<Left, Right> {
 
     fn compare_keys(&self, left_keys: &[DataType], right_keys: &[DataType]) -> Ordering {
         for (l, r) in left_keys.iter().zip(right_keys.iter()) {
-            if matches!(l, DataType::Null) || matches!(r, DataType::Null) {
+            // A NULL key never matches: the row holding it is stepped over on its own side
+            // (a NULL on the left must not make the scan skip the right input)
+            if matches!(l, DataType::Null) {
+                return Ordering::Less;
+            }
+            if matches!(r, DataType::Null) {
                 return Ordering::Greater;
             }
             match l.partial_cmp(r) {
@@ -615,6 +623,8 @@ impl<Left: Executor, Right: Executor> MergeJoin<Left, Right> {
 
                 if matches!(self.join_type, JoinType::Right | JoinType::Full) {
                     self.right_matched.push(false);
+                    self.right_rows
+                        .push(self.current_right.as_ref().unwrap().clone());
                 }
             }
             None => {
@@ -642,6 +652,10 @@ impl<Left: Executor, Right: Executor> MergeJoin<Left, Right> {
 
             if keys_match(target_keys, &right_keys) {
                 self.right_buffer.push(right_row.clone());
+                // `current_right` is the last row recorded by advance_right
+                if let Some(flag) = self.right_matched.last_mut() {
+                    *flag = true;
+                }
                 self.advance_right()?;
             } else {
                 break;
@@ -670,8 +684,8 @@ impl<Left: Executor, Right: Executor> Executor for MergeJoin<Left, Right> {
                 let idx = self.unmatched_right_idx;
                 self.unmatched_right_idx += 1;
 
-                if !self.right_matched[idx] && idx < self.right_buffer.len() {
-                    let row = nulls_with_right(&self.right_buffer[idx], self.left_cols());
+                if !self.right_matched[idx] {
+                    let row = nulls_with_right(&self.right_rows[idx], self.left_cols());
                     self.stats.rows_produced += 1;
                     return Ok(Some(row));
                 }
@@ -694,6 +708,11 @@ impl<Left: Executor, Right: Executor> Executor for MergeJoin<Left, Right> {
                 }
 
                 if matches!(self.join_type, JoinType::Right | JoinType::Full) {
+                    // Right rows not read yet cannot match any more: read them so that they
+                    // are emitted as unmatched
+                    while !self.right_exhausted {
+                        self.advance_right()?;
+                    }
                     self.emitting_unmatched_right = true;
                     return self.next();
                 }
